@@ -342,7 +342,7 @@ func jsonTagCases() []*Case {
 		// name forms with digits and acronyms: UpperCamel and lower_snake (snake_case is unambiguous for
 		// all of them: no upper-case letter directly follows a digit)
 		root := &dsl.Message{Name: "Root", Oneofs: []string{"pick_2", "Mode3"}}
-		for i, n := range []string{"Field2", "HTTPPort", "UserID", "MaxAge", "TTL", "ABTest", "MFADevice", "Port80", "port_2", "address_line_2", "e2e_id", "ipv6_addr", "http2_port", "a1b2", "x"} {
+		for i, n := range []string{"Field2", "HTTPPort", "UserID", "MaxAge", "TTL", "ABTest", "MFADevice", "Port80", "port_2", "address_line_2", "e2e_id", "ipv6_addr", "http2_port", "a1b2", "x", "max_sessionTTL", "aws_roleARN", "foo__bar", "Mixed_Case", "apiURLPrefix", "lowerCamel"} {
 			root.Fields = append(root.Fields, &dsl.Field{Name: n, Num: int32(i + 1), T: []dsl.T{dsl.String, dsl.Int64, dsl.Bool}[i%3]})
 		}
 		root.Fields = append(root.Fields,
@@ -821,6 +821,28 @@ func F4() []*Case {
 		}}
 		nm := map[bool]string{false: "val", true: "ptr"}
 		out = append(out, &Case{Label: "F4/embed-in-embed/" + nm[combo[0]] + ">" + nm[combo[1]], Family: "F4", Tags: map[string]string{"card": "embed", "vt": "embed-in-embed-" + nm[combo[0]] + "-" + nm[combo[1]], "class": "embedded", "pos": "P6>P6"}, File: newFile(root, mid, &in), Cfg: BaseConfig("Root")})
+	}
+	// chains of three embedded messages, every combination of nullable / by-value levels (the
+	// generated code must allocate and guard every nullable level, outermost first)
+	for bits := 0; bits < 8; bits++ {
+		o, m, i := bits&4 != 0, bits&2 != 0, bits&1 != 0
+		in := *deepInner
+		in.Name = "CInner"
+		lower := &dsl.Message{Name: "CLower", Fields: []*dsl.Field{
+			{Name: "LowerName", Num: 1, T: dsl.String},
+			{Name: "CInner", Num: 2, T: dsl.Msg, Ref: "CInner", Embed: true, Nullable: dsl.B(i)},
+		}}
+		upper := &dsl.Message{Name: "CUpper", Fields: []*dsl.Field{
+			{Name: "CLower", Num: 1, T: dsl.Msg, Ref: "CLower", Embed: true, Nullable: dsl.B(m)},
+			{Name: "UpperNames", Num: 2, T: dsl.String, Card: dsl.Repeated},
+		}}
+		root := &dsl.Message{Name: "Root", Fields: []*dsl.Field{
+			{Name: "Head", Num: 1, T: dsl.String},
+			{Name: "CUpper", Num: 2, T: dsl.Msg, Ref: "CUpper", Embed: true, Nullable: dsl.B(o)},
+		}}
+		nm := map[bool]string{false: "val", true: "ptr"}
+		lbl := nm[o] + ">" + nm[m] + ">" + nm[i]
+		out = append(out, &Case{Label: "F4/embed-chain3/" + lbl, Family: "F4", Tags: map[string]string{"card": "embed", "vt": "embed-chain3-" + nm[o] + "-" + nm[m] + "-" + nm[i], "class": "embedded", "pos": "P6>P6>P6"}, File: newFile(root, upper, lower, &in), Cfg: BaseConfig("Root")})
 	}
 	out = append(out, &Case{Label: "F4/value-named-siblings", Family: "F4", Tags: map[string]string{"card": "map", "vt": "value-named-siblings", "class": "scalar", "pos": "P0"}, File: newFile(named, sample, blob, holder2), Cfg: BaseConfig("Root")})
 	return out
